@@ -59,6 +59,13 @@ FIXED_PARTS = [
     {"p": "mol", "map_condition": AND(L("key", "not_equal_to", "b"), L("key", "not_equal_to", "z")),
      "list_condition": AND(L("index", "greater_than", 0), L("index", "less_than", 3))},
     {"p": "mol", "condition": L("value", "truthy"), "index": L("index", "less_than", 2)},
+    {"p": "mol", "map_condition": L("key", "in_", ["a", "x", "y", "b", "c"]), "key": L("key", "not_equal_to", "a"),
+     "list_condition": L("index", "in_", [0, 2, 3]), "index": L("index", "greater_than", 0)},
+    {"p": "mol", "map_condition": L("key", "in_", ["a", "x", "y", "b"]), "key": {"prim": "b"},
+     "list_condition": L("index", "less_than", 3), "index": {"prim": 2}, "value": L("value", "truthy"),
+     "condition": L("value", "not_equal_to", 5)},
+    {"p": "map", "condition": L("key", "in_", ["a", "b", "c", "x"]), "key": L("key", "not_equal_to", "b")},
+    {"p": "list", "condition": L("index", "in_", [0, 1, 2, 3]), "index": L("index", "not_equal_to", 1)},
 ]
 
 FIRSTS_MAP = [{"p": "prim", "v": k} for k in ("m", "l", "s", "em", "el", "n", "str", 0, "deep", "ll", "mm", "nope")] \
